@@ -70,6 +70,13 @@ func (fc *FnCtx) execCallWith(fr *frame, st *State, c *ssa.CallCommon, fnv Val, 
 	for i, a := range args {
 		argVars[fmt.Sprintf("arg%d", i)] = a
 	}
+	// locals named in the point clauses are resolved as they are in scope at the call (a function may
+	// declare several locals of one name: one per loop)
+	saveBlk := fc.curBlk
+	if in, ok := instr.(ssa.Instruction); ok && in != nil && in.Block() != nil {
+		fc.curBlk = in.Block()
+	}
+	defer func() { fc.curBlk = saveBlk }()
 	fc.pointClausesV(st, "before_call", anchor, pos, argVars)
 	v, ok := fc.execCallWith1(fr, st, c, fnv, args, instr, pos)
 	if ok {
@@ -197,6 +204,9 @@ func (fc *FnCtx) pointClausesV(st *State, kind, anchor string, pos token.Pos, va
 			if kind == "at_exit" {
 				env.at = nil
 			}
+		}
+		if (kind == "before_call" || kind == "after_call") && fc.curBlk != nil && fc.curBlk.Parent() == fc.curFn {
+			env.at = fc.curBlk
 		}
 		if fc.curFn.Pkg != nil {
 			env.pkg = fc.curFn.Pkg.Pkg
